@@ -73,3 +73,96 @@ fn k_basis_two_handles() {
 
 /// read access to a handle's bounds for the harness modules of other files (fields are private to basis.rs)
 pub(crate) fn bounds(b: &StandardBasis) -> (f64, f64) { (b.min, b.max) }
+
+// ---------------------------------------------------------------- serde glue (C11)
+mod serde_probe {
+    use super::*;
+    use serde::de::{self, Deserializer, Visitor};
+    use serde::ser::{self, Impossible, Serializer};
+    use serde::{Deserialize, Serialize};
+    use std::fmt;
+
+    #[derive(Debug)]
+    pub struct PErr;
+    impl fmt::Display for PErr { fn fmt(&self, _: &mut fmt::Formatter) -> fmt::Result { Ok(()) } }
+    impl std::error::Error for PErr {}
+    impl ser::Error for PErr { fn custom<T: fmt::Display>(_: T) -> Self { PErr } }
+    impl de::Error for PErr { fn custom<T: fmt::Display>(_: T) -> Self { PErr } }
+
+    /// records every serialize_f64 call; every other call is an error
+    pub struct ProbeSer<'a> { pub calls: &'a mut u32, pub bits: &'a mut u64 }
+    impl<'a> Serializer for ProbeSer<'a> {
+        type Ok = ();
+        type Error = PErr;
+        type SerializeSeq = Impossible<(), PErr>;
+        type SerializeTuple = Impossible<(), PErr>;
+        type SerializeTupleStruct = Impossible<(), PErr>;
+        type SerializeTupleVariant = Impossible<(), PErr>;
+        type SerializeMap = Impossible<(), PErr>;
+        type SerializeStruct = Impossible<(), PErr>;
+        type SerializeStructVariant = Impossible<(), PErr>;
+        fn serialize_f64(self, v: f64) -> Result<(), PErr> { *self.calls += 1; *self.bits = v.to_bits(); Ok(()) }
+        fn serialize_bool(self, _: bool) -> Result<(), PErr> { Err(PErr) }
+        fn serialize_i8(self, _: i8) -> Result<(), PErr> { Err(PErr) }
+        fn serialize_i16(self, _: i16) -> Result<(), PErr> { Err(PErr) }
+        fn serialize_i32(self, _: i32) -> Result<(), PErr> { Err(PErr) }
+        fn serialize_i64(self, _: i64) -> Result<(), PErr> { Err(PErr) }
+        fn serialize_u8(self, _: u8) -> Result<(), PErr> { Err(PErr) }
+        fn serialize_u16(self, _: u16) -> Result<(), PErr> { Err(PErr) }
+        fn serialize_u32(self, _: u32) -> Result<(), PErr> { Err(PErr) }
+        fn serialize_u64(self, _: u64) -> Result<(), PErr> { Err(PErr) }
+        fn serialize_f32(self, _: f32) -> Result<(), PErr> { Err(PErr) }
+        fn serialize_char(self, _: char) -> Result<(), PErr> { Err(PErr) }
+        fn serialize_str(self, _: &str) -> Result<(), PErr> { Err(PErr) }
+        fn serialize_bytes(self, _: &[u8]) -> Result<(), PErr> { Err(PErr) }
+        fn serialize_none(self) -> Result<(), PErr> { Err(PErr) }
+        fn serialize_some<T: ?Sized + Serialize>(self, _: &T) -> Result<(), PErr> { Err(PErr) }
+        fn serialize_unit(self) -> Result<(), PErr> { Err(PErr) }
+        fn serialize_unit_struct(self, _: &'static str) -> Result<(), PErr> { Err(PErr) }
+        fn serialize_unit_variant(self, _: &'static str, _: u32, _: &'static str) -> Result<(), PErr> { Err(PErr) }
+        fn serialize_newtype_struct<T: ?Sized + Serialize>(self, _: &'static str, _: &T) -> Result<(), PErr> { Err(PErr) }
+        fn serialize_newtype_variant<T: ?Sized + Serialize>(self, _: &'static str, _: u32, _: &'static str, _: &T) -> Result<(), PErr> { Err(PErr) }
+        fn serialize_seq(self, _: Option<usize>) -> Result<Self::SerializeSeq, PErr> { Err(PErr) }
+        fn serialize_tuple(self, _: usize) -> Result<Self::SerializeTuple, PErr> { Err(PErr) }
+        fn serialize_tuple_struct(self, _: &'static str, _: usize) -> Result<Self::SerializeTupleStruct, PErr> { Err(PErr) }
+        fn serialize_tuple_variant(self, _: &'static str, _: u32, _: &'static str, _: usize) -> Result<Self::SerializeTupleVariant, PErr> { Err(PErr) }
+        fn serialize_map(self, _: Option<usize>) -> Result<Self::SerializeMap, PErr> { Err(PErr) }
+        fn serialize_struct(self, _: &'static str, _: usize) -> Result<Self::SerializeStruct, PErr> { Err(PErr) }
+        fn serialize_struct_variant(self, _: &'static str, _: u32, _: &'static str, _: usize) -> Result<Self::SerializeStructVariant, PErr> { Err(PErr) }
+    }
+
+    /// feeds one number to the visitor, as f64 or (when `narrow`) as f32 — the two ways a self-describing format may present a float
+    pub struct ProbeDe { pub v: f64, pub narrow: Option<f32> }
+    impl<'de> Deserializer<'de> for ProbeDe {
+        type Error = PErr;
+        fn deserialize_any<V: Visitor<'de>>(self, visitor: V) -> Result<V::Value, PErr> {
+            match self.narrow { Some(x) => visitor.visit_f32(x), None => visitor.visit_f64(self.v) }
+        }
+        serde::forward_to_deserialize_any! {
+            bool i8 i16 i32 i64 u8 u16 u32 u64 f32 f64 char str string bytes byte_buf option unit unit_struct
+            newtype_struct seq tuple tuple_struct map struct enum identifier ignored_any
+        }
+    }
+
+    /// K:k_serde_f64 — C11: SharedValue's hand-written glue passes the cell's bits through unchanged in both directions
+    #[kani::proof]
+    fn k_serde_f64() {
+        let x: f64 = kani::any();
+        let cell = SharedValue::new(x);
+        let (mut calls, mut bits) = (0u32, 0u64);
+        let r = cell.serialize(ProbeSer { calls: &mut calls, bits: &mut bits });
+        assert!(r.is_ok());
+        assert!(calls == 1);                // exactly one number is emitted
+        assert!(bits == x.to_bits());       // and it is the cell's value, bit for bit (no narrowing to f32)
+        let back = SharedValue::deserialize(ProbeDe { v: x, narrow: None });
+        assert!(back.is_ok());
+        assert!(back.unwrap().get_value().to_bits() == x.to_bits());
+        // a format that presents the number as f32 is widened exactly
+        let y: f32 = kani::any();
+        let back32 = SharedValue::deserialize(ProbeDe { v: 0., narrow: Some(y) });
+        assert!(back32.is_ok());
+        assert!(back32.unwrap().get_value().to_bits() == (y as f64).to_bits());
+        kani::cover!(x.is_nan());
+        kani::cover!(x == 0.1);
+    }
+}
